@@ -36,6 +36,8 @@ pub fn fp(req: &Req) -> R<String> {
 			"div" => s64(x / y),
 			"fma" => s64(x.mul_add(y, z)),
 			"sqrt" => s64(x.sqrt()),
+			"exp" => s64(x.exp()),
+			"ln" => s64(x.ln()),
 			"lt" => bl(x < y),
 			"le" => bl(x <= y),
 			"eq" => bl(x == y),
@@ -53,6 +55,8 @@ pub fn fp(req: &Req) -> R<String> {
 			"div" => s32(x / y),
 			"fma" => s32(x.mul_add(y, z)),
 			"sqrt" => s32(x.sqrt()),
+			"exp" => s32(x.exp()),
+			"ln" => s32(x.ln()),
 			"lt" => bl(x < y),
 			"le" => bl(x <= y),
 			"eq" => bl(x == y),
